@@ -5,6 +5,8 @@ from replay.C01 import native
 
 def replay(name, e, src_root):
     out = native({}, src_root, script='native_c01_obf.py')
+    if not out.get('confirmed') and ('undecided[' in name or 'native-sweep' in name):
+        out = native({}, src_root, script='native_c01_sweep.py')
     path = write_replay(name, e, note='native replay of the obfuscation functions against the pinned scheme',
                         extra={'request': {'kind': 'obf'}, 'native': out})
     return bool(out.get('confirmed')), path
